@@ -1024,3 +1024,36 @@ def f_memonly_first(rng, seed, style=None):
     if rng.random() < 0.5:
         hint["optimise"] = "Performance"
     return "memonly_first:%s:%s" % (style, ck), n.desc(outs), hint
+
+
+# ---- cascades whose rolling buffers have a depth that is not a multiple of 16 (round 4/5: seeded change c10-r4m2 was caught or
+# missed depending on whether a random chain happened to have such a depth AND a configuration that forces a cascade)
+OPT_IN.add("odd_cascade")
+
+
+@family("odd_cascade", ["c24", "c20", "c40", "c12", "c3", "c24_pool", "c33_dw"])
+def f_odd_cascade(rng, seed, style=None):
+    """chains of 3-4 windowed operators on 32..64-row feature maps whose INTERMEDIATE tensors have 24 / 20 / 40 / 12 / 3 / 33
+    channels (NHCWB16 rolling buffers with a padded last brick), hinted to configurations that make the scheduler cascade them
+    (--optimise Size, or Performance with an arena cache far below the un-cascaded peak)"""
+    n = Net(seed)
+    style = pick_style(rng, "odd_cascade", style)
+    c = {"c24": 24, "c20": 20, "c40": 40, "c12": 12, "c3": 3, "c24_pool": 24, "c33_dw": 33}[style]
+    H, W = rng.choice([32, 48, 64]), rng.choice([8, 16, 24])
+    x = n.fm("in", [1, H, W, rng.choice([8, 16, c])], is_input=True)
+    t = n.conv(x, c, 3)
+    if style == "c24_pool":
+        t = n.pool(t, "MAX_POOL_2D", k=3, stride=1)
+    elif style == "c33_dw":
+        t = n.dwconv(t, 3)
+    else:
+        t = n.conv(t, c, 3)
+    t = n.conv(t, c, rng.choice([1, 3]))
+    y = n.conv(t, rng.choice([8, 16]), 3)
+    hint = cfg(rng, "u55", "u55_shared", "u65_spill", "u65_shared")
+    if rng.random() < 0.6:
+        hint["optimise"] = "Size"
+    else:
+        hint["optimise"] = "Performance"
+        hint["arena"] = rng.choice([6144, 9000, 12288, 16384])
+    return "odd_cascade:%s:%dx%d" % (style, H, W), n.desc([y]), hint
